@@ -605,6 +605,8 @@ class Model:
         return t
 
     def add(self, cname, t, rid, alt=None):
+        if alt is not None:
+            self.ambiguous = True     # a reference beat within noise of a grid point
         self.seq += 1
         self.pending.append([cname, t, self.seq, rid, alt])
 
